@@ -802,7 +802,10 @@ func (lc *leaderController) write(ctx context.Context, requestSupplier func(offs
 	walLog := lc.wal
 	tracker := lc.quorumAckTracker
 	term := lc.term
-	lc.Unlock()
+	// Keep the lock until the entry has been handed to the WAL: entries must be
+	// appended in the same order in which their offsets were allocated, otherwise
+	// the WAL rejects them and the gap is never filled
+	defer lc.Unlock()
 	request := requestSupplier(newOffset)
 
 	lc.log.Debug("Append operation", slog.Any("req", request))
